@@ -310,10 +310,16 @@ def r_strat(ctx, view):
 # R-STRICT
 # ------------------------------------------------------------------------------------------
 def r_strict(ctx, view):
+    """push_increase / push_decrease: one priority comparison; normalised for operand order and for which edge of it
+    leads to `push`, it is strict and in the right direction; an absent item is pushed; the refusing edge is effect-free
+    and returns Some(offered)."""
     prog = view.prog
     vp = view.vp
     fx = view.fx
     ctx.cur = view
+    NEG = {"gt": "le", "ge": "lt", "lt": "ge", "le": "gt"}
+    FLIPOP = {"gt": "lt", "lt": "gt", "ge": "le", "le": "ge"}
+    SYM = {"gt": ">", "lt": "<", "ge": ">=", "le": "<="}
     for Q in QUEUES:
         for name, want in (("push_increase", "gt"), ("push_decrease", "lt")):
             f = prog.fn("%s::%s" % (Q, name))
@@ -323,64 +329,124 @@ def r_strict(ctx, view):
             for g in prog.family(f.key):
                 for bb, t in g.calls():
                     ci = fx.call_info(g, bb)
-                    if ci.cmp or (ci.local_callee is None and ci.name in ("cmp", "partial_cmp", "max", "min", "ge", "le", "gt", "lt")):
+                    if ci.cmp or (ci.local_callee is None and ci.name in ("cmp", "partial_cmp", "max", "min", "ge", "le", "gt", "lt") and ci.mruc):
                         cmps.append((g, bb, ci))
-            if len(cmps) != 1:
+            if len(cmps) != 1 or cmps[0][2].name not in ("gt", "lt", "ge", "le"):
                 ctx.ob("R-STRICT", key + ":one-strict-comparison", False, f.loc(),
-                       "expected exactly one priority comparison, found %d (%s)" % (len(cmps), [c[2].key for c in cmps]))
+                       "expected exactly one priority comparison (<, <=, >, >=), found %s" % [c[2].key for c in cmps])
                 continue
-            g, bb, ci = cmps[0]
+            g, cbb, ci = cmps[0]
             args = fx.args_vp(ci)
             op = ci.name
             a, b = strip(args[0]), strip(args[1])
-            offered_first = is_param(a, 3) or (a[0] == "param" and a[3] == "priority")
-            stored_first = is_stored(a)
-            if stored_first and (is_param(b, 3)):
-                op = {"gt": "lt", "lt": "gt", "ge": "le", "le": "ge"}.get(op, op)
+            if is_stored(a) and is_offered(b, f):
+                op = FLIPOP[op]
                 a, b = b, a
-            ok = op == want and is_param(a, 3) and is_stored(b)
-            ctx.ob("R-STRICT", key + ":one-strict-comparison", ok, g.loc(ci.span),
-                   "comparison is `offered %s stored` (must be strictly `%s`); offered=%s stored=%s" % (
-                       {"gt": ">", "lt": "<", "ge": ">=", "le": "<="}.get(op, op), {"gt": ">", "lt": "<"}[want], term_str(a)[:30], term_str(b)[:50]))
-            # absent key => push: map_or(true, ..)
-            r_mo = [t for bb2, t in f.calls() if "func" in t and t["func"]["key"] == "std::option::Option::map_or"]
-            okd = len(r_mo) == 1 and r_mo[0]["args"][1]["k"] == "const" and r_mo[0]["args"][1]["s"] in ("const true", "true")
-            ctx.ob("R-STRICT", key + ":absent-item-is-pushed", okd, f.loc(), "lookup.map_or(true, cmp): an absent item is inserted")
-            # branch: true -> push(self, item, priority) returned; false -> Some(priority), no effects
-            sw = [bi for bi in sorted(f.cfg.reach) if f.term(bi)["k"] == "switch" and strip(vp.operand(f, f.term(bi)["discr"]))[0] == "call"
-                  and strip(vp.operand(f, f.term(bi)["discr"]))[1] == "std::option::Option::map_or"]
-            okb, whyb = False, "no branch on the comparison result"
-            if sw:
-                t = f.term(sw[0])
-                zero = [tb for v, tb in t["targets"] if v == 0][0]
-                tt = t["otherwise"]
-                push_bbs = [bb2 for bb2, _ in f.calls() if fx.call_info(f, bb2).local_callee == Q + "::push"]
-                okp = False
-                for pb in push_bbs:
-                    pa = fx.args_vp(fx.call_info(f, pb))
-                    if is_param(pa[1], 2) and is_param(pa[2], 3) and (pb == tt or pb in f.cfg.reachable_from(tt)) and f.term(pb)["dest"]["local"] == 0:
-                        okp = f.cfg.escape_path(sw[0], {pb}, stop_edges={(sw[0], zero)}) is None
-                # false side: no crate call with effects, returns Some(priority)
-                fside = blocks_between(f, zero, set())
+            operands_ok = is_offered(a, f) and is_stored(b)
+            # push sites: push(self, item, priority) whose result is returned
+            push_bbs = []
+            for bb2, _ in f.calls():
+                c2 = fx.call_info(f, bb2)
+                if c2.local_callee == Q + "::push":
+                    pa = fx.args_vp(c2)
+                    if is_param(pa[1], 2) and is_param(pa[2], 3) and f.term(bb2)["dest"]["local"] == 0:
+                        push_bbs.append(bb2)
+
+            def leads_to_push(tb):
+                if not push_bbs:
+                    return False
+                if tb in push_bbs:
+                    return True
+                return any(p in f.cfg.reachable_from(tb) for p in push_bbs) and f.cfg.escape_path_from(tb, set(push_bbs)) is None
+
+            def refuses(tb):
+                region = blocks_between(f, tb, set(push_bbs))
+                if any(p in region for p in push_bbs):
+                    return False
                 eff = set()
-                for bb2 in fside:
-                    tt2 = f.term(bb2)
-                    if tt2["k"] == "call":
+                for bb2 in region:
+                    if f.term(bb2)["k"] == "call":
                         c2 = fx.call_info(f, bb2)
                         if c2.local_callee:
                             eff |= {e for e in fx.effects[c2.local_callee] if e in ("TW", "MW")}
-                        for ev in fx.events(f):
-                            if ev["bb"] == bb2 and ev["kind"] in ("tw", "mw"):
-                                eff.add(ev["kind"])
+                    for ev in fx.events(f):
+                        if ev["bb"] == bb2 and ev["kind"] in ("tw", "mw"):
+                            eff.add(ev["kind"])
                 rv = None
-                for bb2 in sorted(fside):
+                for bb2 in sorted(region):
                     for s in f.blocks[bb2]["stmts"]:
                         if s["k"] == "assign" and s["place"]["local"] == 0 and not s["place"]["proj"]:
                             rv = vp.rvalue(f, s["rv"])
-                okf = not eff and rv is not None and rv[0] == "adt" and rv[2] == "Some" and is_param(rv[3][0], 3)
-                okb = okp and okf
-                whyb = "true edge returns push(item, priority): %s; false edge is effect-free and returns Some(priority): %s" % (okp, okf)
-            ctx.ob("R-STRICT", key + ":branches", okb, f.loc(), whyb)
+                return (not eff) and rv is not None and rv[0] == "adt" and rv[2] == "Some" and is_param(rv[3][0], 3)
+
+            # controlling switch of the comparison
+            ctrl = None
+            absent_ok, absent_why = False, "no path for the absent item found"
+            if g is f:
+                dest = f.term(cbb)["dest"]["local"]
+                for sb in sorted(f.cfg.reach):
+                    tt = f.term(sb)
+                    if tt["k"] == "switch" and tt["discr"]["k"] in ("copy", "move") and not tt["discr"]["place"]["proj"]:
+                        d = vp.operand(f, tt["discr"])
+                        if d[0] == "call" and d[3] == (f.key, cbb):
+                            ctrl = sb
+                # absent: None edge of the lookup's discriminant leads to push
+                for sb in sorted(f.cfg.reach):
+                    tt = f.term(sb)
+                    if tt["k"] == "switch":
+                        d = strip(vp.operand(f, tt["discr"]))
+                        if d[0] == "discr" and any(x[0] == "call" and x[1].split("::")[-1] in ("get_priority", "get") for x in walk(d)):
+                            none_t = [tb for v, tb in tt["targets"] if v == 0]
+                            if not none_t and all(v == 1 for v, _ in tt["targets"]):
+                                none_t = [tt["otherwise"]]
+                            if none_t:
+                                absent_ok = leads_to_push(none_t[0])
+                                absent_why = "the None arm of the lookup %s push" % ("reaches" if absent_ok else "does not reach")
+            else:
+                # combinator form: lookup.map_or(default, |p| cmp)
+                mo = [(bb2, t2) for bb2, t2 in f.calls() if "func" in t2 and t2["func"]["key"] == "std::option::Option::map_or"]
+                if len(mo) == 1:
+                    mbb, mt = mo[0]
+                    default = mt["args"][1]
+                    dval = {"const true": True, "true": True, "const false": False, "false": False}.get(default.get("s")) if default["k"] == "const" else None
+                    for sb in sorted(f.cfg.reach):
+                        tt = f.term(sb)
+                        if tt["k"] == "switch":
+                            d = vp.operand(f, tt["discr"])
+                            if d[0] == "call" and d[3] == (f.key, mbb):
+                                ctrl = sb
+                    if ctrl is not None and dval is not None:
+                        tt = f.term(ctrl)
+                        zero = [tb for v, tb in tt["targets"] if v == 0][0]
+                        tgt = tt["otherwise"] if dval else zero
+                        absent_ok = leads_to_push(tgt)
+                        absent_why = "map_or(%s, cmp): the absent item %s push" % (str(dval).lower(), "reaches" if absent_ok else "does not reach")
+            if ctrl is None:
+                ctx.ob("R-STRICT", key + ":one-strict-comparison", False, g.loc(ci.span), "no branch is controlled by the comparison")
+                continue
+            tt = f.term(ctrl)
+            zero = [tb for v, tb in tt["targets"] if v == 0][0]
+            T, F = tt["otherwise"], zero
+            eff_op = None
+            if leads_to_push(T) and refuses(F):
+                eff_op = op
+            elif leads_to_push(F) and refuses(T):
+                eff_op = NEG[op]
+            ctx.ob("R-STRICT", key + ":branches", eff_op is not None, f.loc(),
+                   "one edge of the comparison returns push(item, priority), the other is effect-free and returns Some(priority)"
+                   if eff_op else "the edges of the comparison are not {push(item, priority) returned | effect-free Some(priority)}")
+            if eff_op is None:
+                continue
+            ok = eff_op == want and operands_ok
+            ctx.ob("R-STRICT", key + ":one-strict-comparison", ok, g.loc(ci.span),
+                   "the item is pushed iff `offered %s stored` (must be strictly `%s`); offered=%s stored=%s" % (
+                       SYM[eff_op], SYM[want], term_str(a)[:30], term_str(b)[:50]))
+            ctx.ob("R-STRICT", key + ":absent-item-is-pushed", absent_ok, f.loc(), absent_why)
+
+
+def is_offered(t, f):
+    t = strip(t)
+    return t[0] == "param" and ((t[1] == f.key and t[2] == 3) or t[3] == "priority")
 
 
 def is_stored(t):
